@@ -819,6 +819,17 @@ func (pid *grainPID) handlePoisonPill(grainContext *GrainContext) {
 
 func (pid *grainPID) handleGrainContext(grainContext *GrainContext) {
 	defer pid.recovery(grainContext)
+
+	// A message that was enqueued while the grain was still active but sits
+	// behind a PoisonPill or a passivation pill is dequeued after deactivate
+	// has run. OnDeactivate is the last hook of an activation: the instance
+	// must not see OnReceive again. Fail the message instead, like a tick that
+	// arrives while the grain deactivates (handleTimerTick); a later send
+	// activates a fresh instance.
+	if !pid.isActive() {
+		grainContext.Err(gerrors.ErrDead)
+		return
+	}
 	pid.processedCount.Inc()
 	pid.markActivity(time.Now())
 	pid.grain.OnReceive(grainContext)
